@@ -789,6 +789,7 @@ func (pm *ProtocolManager) handleTxsMsg(msg *p2p.Msg) error {
 		if err := tx.VerifyTxBody(pm.chainID, nowTime, false); err != nil {
 			continue
 		}
+		tx := tx // per-iteration copy: the goroutine below must not share the loop variable
 
 		go func() {
 			// 判断接收到的交易是否在本分支已经存在
